@@ -4,9 +4,10 @@
 f=${1:-/tmp/refpairs.txt}
 while read -r pr props; do
   [ -z "$pr" ] && continue
-  patch=/tmp/refout/${pr%/*}/${pr#*/}.patch.diff
-  [ -f "$patch" ] || patch=/verif/refactorings/${pr%/*}-${pr#*/}.patch.diff
+  patch=/verif/refactorings/${pr%/*}-${pr#*/}.patch.diff
+  [ -f "$patch" ] || patch=/tmp/refout/${pr%/*}/${pr#*/}.patch.diff
   out=$(/verif/tools/trypatch.sh "$patch" $props 2>&1)
   bad=$(echo "$out" | grep "^== " | grep -v "exit=0" | sed 's/== //' | tr '\n' ' ')
+  if echo "$out" | grep -q "PATCH-DOES-NOT-APPLY"; then echo "NOAPPLY $pr"; continue; fi
   if [ -z "$bad" ]; then echo "OK    $pr ($props)"; else echo "ALARM $pr: $bad"; fi
 done < "$f"
